@@ -67,6 +67,13 @@ def _names(t):
     return out
 
 
+def _definitional_ids():
+    ids = {ax.get_id() for ax in sym.CTX.defs.values()}
+    for e in REGISTRY:
+        ids |= {f.get_id() for f in e.interp.sound_facts()}
+    return ids
+
+
 def goal_replay(goal, assumptions=(), encs=None, tol=1e-6, npoints=12, label=""):
     """generic replay of a `sat` answer: (1) concrete points -- the model's, then fixed pseudo-random ones inside the
     declared input ranges that satisfy the assumptions; (2) the REAL function of every encoding the goal mentions is
@@ -102,7 +109,8 @@ def goal_replay(goal, assumptions=(), encs=None, tol=1e-6, npoints=12, label="")
         for k, v in model.items():
             if isinstance(v, Fraction) and k in allvars:
                 p0[k] = float(v)
-        points.append(("the solver's model", p0))
+        if model:
+            points.append(("the solver's model", p0))
         points.append(("a fixed generic point", base))
         for j in range(npoints):
             points.append((f"pseudo-random point {j}", {nm: ranges.get(nm, (-1.0, 1.0))[0] + (ranges.get(nm, (-1.0, 1.0))[1] - ranges.get(nm, (-1.0, 1.0))[0]) * rng.random() for nm in sorted(allvars)}))
@@ -113,7 +121,9 @@ def goal_replay(goal, assumptions=(), encs=None, tol=1e-6, npoints=12, label="")
                 ok = True
                 for a in assumptions:
                     if z3.is_expr(a) and (_names(a) - allvars - set(ack) - set(sym.CTX.consts)):
-                        continue  # about other symbols
+                        if a.get_id() in _definitional_ids():
+                            continue  # defining fact of a square root that this goal does not mention
+                        raise KeyError("an assumption mentions symbols without a concrete meaning here")
                     if not ne.holds(a, 1e-7):
                         ok = False
                         break
